@@ -514,9 +514,10 @@ Proof.
   - rewrite run_decls_cons.
     assert (Hs : exists fr1 st1, step 0 depth wd fs (fr :: sc, st) d = (fr1 :: sc, st1)).
     { destruct d as [n v|ps|i p|outs r ex im oo bs|n bs|n bs|c];
-        try (destruct (run_simple_tail wd _ fr sc st) as [fr1 H1]; cbn [step];
-             match goal with |- exists _ _, ?X = _ => destruct X as [sc1 st1] eqn:E end;
-             cbn [fst] in H1; subst sc1; eexists; eexists; reflexivity).
+        try (match goal with |- exists _ _, step _ _ _ _ _ ?d = _ => destruct (run_simple_tail wd d fr sc st) as [fr1 H1] end;
+             cbn [step]; revert H1;
+             match goal with |- _ -> exists _ _, ?X = _ => destruct X as [sc1 st1] end;
+             cbn [fst]; intros H1; subst sc1; eexists; eexists; reflexivity).
       cbn [step]. destruct (eval_in_scope (fr :: sc) p) as [path es].
       destruct (Nat.leb max_include_depth depth); eexists; eexists; reflexivity. }
     destruct Hs as [fr1 [st1 Hs]]. rewrite Hs. apply IHd.
@@ -524,9 +525,10 @@ Proof.
   - rewrite run_decls_cons.
     assert (Hs : exists fr1 st1, step (S f) depth wd fs (fr :: sc, st) d = (fr1 :: sc, st1)).
     { destruct d as [n v|ps|i p|outs r ex im oo bs|n bs|n bs|c];
-        try (destruct (run_simple_tail wd _ fr sc st) as [fr1 H1]; cbn [step];
-             match goal with |- exists _ _, ?X = _ => destruct X as [sc1 st1] eqn:E end;
-             cbn [fst] in H1; subst sc1; eexists; eexists; reflexivity).
+        try (match goal with |- exists _ _, step _ _ _ _ _ ?d = _ => destruct (run_simple_tail wd d fr sc st) as [fr1 H1] end;
+             cbn [step]; revert H1;
+             match goal with |- _ -> exists _ _, ?X = _ => destruct X as [sc1 st1] end;
+             cbn [fst]; intros H1; subst sc1; eexists; eexists; reflexivity).
       cbn [step]. destruct (eval_in_scope (fr :: sc) p) as [path es].
       destruct (Nat.leb max_include_depth depth); [eexists; eexists; reflexivity|].
       destruct (find_file fs (make_absolute wd path)) as [ds'|]; [|eexists; eexists; reflexivity].
